@@ -109,6 +109,16 @@ WhileIn(c) ==
           /\ cur' = [cur EXCEPT ![c] = [@ EXCEPT !.idx = len, !.fetched = TRUE]]
   /\ UNCHANGED <<tbl, base>>
 
+\* WHILE @a, @b IN c DO PRINT @a; DISPOSE CURSOR c; END WHILE : the body runs for the first remaining row; the next fetch
+\* finds no cursor of that name (the loop names its cursor, it does not hold it)
+WhileInDispose(c) ==
+  /\ IF ~cur[c].decl THEN out' = Err("UndeclaredCursor") /\ UNCHANGED cur
+     ELSE IF ~cur[c].open THEN out' = Err("CursorClosed") /\ UNCHANGED cur
+     ELSE IF cur[c].idx + 1 >= Len(cur[c].view)
+       THEN out' = Val(<<>>) /\ cur' = [cur EXCEPT ![c] = [@ EXCEPT !.idx = Len(cur[c].view), !.fetched = TRUE]]
+       ELSE out' = Err("UndeclaredCursor") /\ cur' = [cur EXCEPT ![c] = NoCursor]
+  /\ UNCHANGED <<tbl, base>>
+
 \* data changes under the cursors
 Insert(id, v) ==
   /\ Len(tbl) < MaxRows
@@ -141,6 +151,7 @@ Do(a) ==
     [] a.act = "fetch"    -> Fetch(a.c, a.pos, a.n)
     [] a.act = "status"   -> Status(a.c)
     [] a.act = "whilein"  -> WhileIn(a.c)
+    [] a.act = "whileindispose" -> WhileInDispose(a.c)
     [] a.act = "insert"   -> Insert(a.id, a.v)
     [] a.act = "update"   -> Update(a.id)
     [] a.act = "delete"   -> Delete(a.id)
@@ -152,7 +163,7 @@ A(act, c, q, pos, n, id, v) == [act |-> act, c |-> c, q |-> q, pos |-> pos, n |-
 
 Actions ==
   {A("declare", c, q, "", 0, 0, 0) : c \in Cursors, q \in Queries}
-  \cup {A(x, c, "", "", 0, 0, 0) : x \in {"dispose", "open", "close", "status", "whilein"}, c \in Cursors}
+  \cup {A(x, c, "", "", 0, 0, 0) : x \in {"dispose", "open", "close", "status", "whilein", "whileindispose"}, c \in Cursors}
   \cup {A("fetch", c, "", pos, 0, 0, 0) : c \in Cursors, pos \in {"NEXT", "PRIOR", "FIRST", "LAST"}}
   \cup {A("fetch", c, "", pos, n, 0, 0) : c \in Cursors, pos \in {"ABSOLUTE", "RELATIVE"}, n \in Offsets}
   \cup {A("insert", "", "", "", 0, id, v) : id \in Ids, v \in Vals}
